@@ -10,7 +10,10 @@ from ..workloads import files as WF
 from ..trace import CallCounter
 from ..runner import classify_exception, exc_site, exc_text
 
-NAMES = ["c11s", "c12s", "c44s", "bm_VRH", "G_VRH", "v_p", "v_s", "v", "c11t", "bm_V", "G_R", "c66s"]
+NAMES = ["c11s", "c12s", "c44s", "bm_VRH", "G_VRH", "v_p", "v_s", "v", "c11t", "bm_V", "G_R", "c66s", "G_V", "bm_R"]
+# names that are prefixes of other table names (bm_V / bm_VRH, G_V / G_VRH, v / v_p / v_s): a directory produced by a real run holds
+# all of them, so every scratch directory does too
+FAMILY = ["bm_V", "bm_VRH", "bm_R", "G_V", "G_VRH", "G_R", "v", "v_p", "v_s"]
 UNITFILE = {"v_p": "km_s", "v_s": "km_s", "v": "ang3"}
 
 
@@ -101,7 +104,7 @@ def _extract(ctx, e2e):
         funcs = [smooth(rng) for _ in names]
         wd = e2e.workdir(case_id)
         # unrelated files that must not be picked up by the glob
-        distract = [nm for nm in NAMES if nm not in names][:3]
+        distract = [nm for nm in FAMILY if nm not in names] + [nm for nm in NAMES if nm not in names and nm not in FAMILY][:2]
         write_tables(wd, names + distract, funcs + [smooth(rng) for _ in distract], t, p, ["pandas", "oracle"][i % 2])
         by_t = bool(i % 2)
         axis, other = (t, p) if by_t else (p, t)
@@ -166,7 +169,8 @@ def _geotherm(ctx, e2e):
             continue
         rng = ctx.rng("geo", i)
         k = int(rng.integers(1, 4))
-        names = [NAMES[int(j)] for j in rng.permutation(len(NAMES))[:k]]
+        pool = FAMILY if i % 2 else NAMES
+        names = [pool[int(j)] for j in rng.permutation(len(pool))[:k]]
         funcs = [smooth(rng) for _ in names]
         t_lo, t_hi = 300.0, 300.0 + float(rng.choice([1500, 2400]))
         p_lo, p_hi = 0.0, float(rng.choice([30, 120]))
@@ -178,7 +182,8 @@ def _geotherm(ctx, e2e):
             t = numpy.linspace(t_lo, t_hi, (nt0 - 1) * mult + 1)
             p = numpy.linspace(p_lo, p_hi, (np0 - 1) * mult + 1)
             wd = e2e.workdir(f"{case_id}-L{level}")
-            write_tables(wd, names, funcs, t, p, ["pandas", "oracle"][i % 2])
+            others = [nm for nm in FAMILY if nm not in names]
+            write_tables(wd, names + others, funcs + [smooth(ctx.rng("geo-distract", i, nm)) for nm in others], t, p, ["pandas", "oracle"][i % 2])
             # geotherm: nodes of the coarse grid (present at every level) and points in between
             rg = ctx.rng("geo-path", i)
             jt, jp = rg.integers(0, nt0, size=npts), rg.integers(0, np0, size=npts)
